@@ -584,12 +584,46 @@ class Gen:
             return False
         return True
 
+    def read_paths(self, cell=None):
+        """one rd op per form (plain / interpolation / temporary) reading ONE cell through every available
+        access path that denotes it (name, member path, element, dereference / arrow of every pointer to it)"""
+        env = TypeEnv(self.vt)
+        cands = self.exprs_of("int", env, [], False)
+        if cell is None:
+            if not cands:
+                return 0
+            cell = self.sh.resolve(self.rng.choice(cands), [])
+        same = [a for a in cands if self.sh.resolve(a, []) == cell]
+        n = 0
+        for form in ("plain", "interp", "tmp"):
+            es, stys, sigs = [], [], []
+            for a in same:
+                for st in ({"arrow": True, "ivar": False}, {"arrow": False, "ivar": True}):
+                    sg = self.sig("M", "r-" + form, a, env, [], None, st)
+                    if sg in sigs:
+                        continue
+                    if self.allow(sg):
+                        es.append(a); stys.append(st); sigs.append(sg)
+                    else:
+                        self.avoided += 1
+            if es:
+                self.next_id += 1
+                self.emit({"k": "rd", "id": self.next_id, "as": es, "form": form, "stys": stys, "sigs": sigs})
+                n += 1
+        return n
+
     def history(self, n, kinds=None):
-        kinds = kinds or ["w"] * 6 + ["cp"] * 3 + ["addr"] * 2 + ["rd"] * 5 + ["call"] * 5 + ["decl"]
+        kinds = kinds or ["w"] * 6 + ["cp"] * 3 + ["addr"] * 2 + ["rd"] * 4 + ["call"] * 5 + ["decl"] + ["rdall"] * 2
         tries = 0
         while len(self.ops) < n and tries < 6 * n:
             tries += 1
-            self.step(self.rng.choice(kinds))
+            k = self.rng.choice(kinds)
+            if k == "rdall":
+                self.read_paths()
+                continue
+            ok = self.step(k)
+            if ok and k == "w" and self.rng.random() < 0.4:
+                self.read_paths(self.sh.resolve(self.ops[-1]["a"], []))
 
     def spec_eq_mech(self, call):
         """the call behaves the same under aliasing and under copy-in/write-through/copy-back"""
@@ -1099,3 +1133,305 @@ class Build:
 
     def case(self):
         return {"place": self.g.place, "ops": self.g.ops}
+
+
+# ------------------------------------------------------------------ the check
+META = {
+    "category": "proof",
+    "technique": "Coq proofs over a location+path store (frame, copy independence, alias visibility over arbitrary histories; "
+                 "refinement copy-in/write-through/copy-back = aliasing under an executable exclusivity condition, refuted without it) "
+                 "+ extracted-model differential run against the real interpreter on generated histories",
+    "text": "Machine-checked theorems about a Gallina store in which struct members and array elements are children of a tree per "
+            "location and &x, T&, array parameters and self denote location+path: a write changes exactly the addressed cell "
+            "(also lifted to arbitrary histories of statements, declarations and calls through footprints), after b = a no history that "
+            "stays out of b changes any read under b and vice versa, two access paths to one cell always read the same value, a write "
+            "through any path (name, member path, element, dereference, arrow, T&, array parameter, self, T*) is read back through every "
+            "other path once the statement/call completes. One mechanism of the code is mirrored: array parameters and self are "
+            "copy-in / write-through / copy-back (call_impl.cpp, cleanup.cpp:155, statement_executor.cpp:720); it is PROVED equal to "
+            "aliasing (same transcript, same caller-visible heap) for every heap, parameter list and deref-free callee body that "
+            "satisfies the executable exclusivity condition call_ok, and REFUTED without it (three witnesses, confirmed on the binary). "
+            "Tie on every run: random histories (<= 60 ops quick) of scalar writes through random access paths, aggregate copies, "
+            "pointer retargeting, declarations, calls with generated callee bodies (by value, T&, T*, array parameter, self, by-value "
+            "return) and reads of cells through every available path (plain, string interpolation, temporary) over an object graph "
+            "(struct with scalar, nested-struct and array members, struct arrays, flat structs, int arrays, three pointers), printed as "
+            "Cb programs and run on main built from the current tree; the transcript must equal the extracted model's. The generator "
+            "stays inside the fragment where main and the model agree; every excluded family of forms is a recorded known finding "
+            "(28 entries) that is replayed on every run.",
+    "note": "PARTIAL: the implementation's double representation of struct values (member map + flattened 'a.b.c' variables, "
+            "managers/structs/*.cpp) is NOT modelled; the 18 avoidance rules cut away most whole-struct copies of structs with "
+            "nested/array members, struct-array elements as whole values, pointers to members, methods on such structs (all defects "
+            "of that mechanism). Trusted: Coq kernel (vm_compute for the three witnesses), no axioms (Print Assumptions: closed); "
+            "extraction ExtrOcamlBasic+ExtrOcamlString; hand-written model tied by differential testing only; the Python printer of "
+            "histories to Cb text and the Python shadow heap (cross-checked against the extracted model on every case). The "
+            "refinement theorem covers callee bodies/arguments without dereferences and without &; copy-back order = parameter-name "
+            "order (std::map), equal to binding order for the generated names q0..q2.",
+}
+
+
+def gen_history(seed, k, n, tier):
+    rng = rng_for(seed, "c07-hist", tier, k)
+    place = "global" if rng.random() < 0.5 else "local"
+    g = Gen(rng, allow_main, place)
+    # a prefix of plain member-wise initialisation (random subset, so that default-zero cells stay in play)
+    env = TypeEnv(g.vt)
+    for loc, (_, t) in enumerate(VARS):
+        if t.startswith("*"):
+            continue
+        for p in leaves(t):
+            # struct arrays are always initialised member-wise first (known findings C07-uninit-structarray-*)
+            if t in ("PS", "ES") or rng.random() < 0.7:
+                a = ("v", loc)
+                for i in p:
+                    a = ("f", a, i)
+                st = {"arrow": True, "ivar": False}
+                sg = g.sig("M", "w", a, env, [], None, st)
+                if allow_main(sg):
+                    g.emit({"k": "w", "a": a, "z": g.val(), "sty": st, "sigs": [sg]})
+    n0 = len(g.ops)
+    g.history(n0 + n)
+    for o in g.read_all(("plain", "plain", "interp")):
+        g.emit(o)
+    return {"place": place, "ops": g.ops, "origin": "random", "k": k}, g
+
+
+def gen_conflict(seed, k):
+    """an array parameter whose argument is also written/read by its global name inside the callee
+    (Spec != Mech: the *_refuted theorems); the implementation must follow Mech"""
+    rng = rng_for(seed, "c07-conflict", k)
+    b = Build("global")
+    arr = rng.choice(["g", "h"])
+    for i in range(3):
+        b.op("w", "%s[%d]" % (arr, i), b.g.val())
+    body = []
+    for _ in range(rng.randint(2, 5)):
+        r = rng.random()
+        root = rng.choice(["q0", arr])
+        if r < 0.6:
+            body.append(("w", "%s[%d]" % (root, rng.randint(0, 2)), b.g.val()))
+        else:
+            body.append(("rd", ["q0[%d]" % rng.randint(0, 2), "%s[%d]" % (arr, rng.randint(0, 2))]))
+    b.call([("arr", "A3", arr)], body)
+    b.op("rd", ["%s[0]" % arr, "%s[1]" % arr, "%s[2]" % arr])
+    c = b.case()
+    c["origin"] = "conflict"
+    c["k"] = k
+    return c
+
+
+def impl_transcript(impl_dir, case):
+    rc, o, e = common.run_cb(impl_dir, to_cb(case), timeout=10)
+    tr = parse_transcript(o)
+    err = e.strip().split("\n")[0][:160] if e.strip() else ""
+    if rc != 0:
+        tr = tr + [["EXIT", rc, re.sub(r"/var/tmp/cbrun-[^/]*/", "", err)]]
+    return tr
+
+
+def nontrivial(case):
+    """a history is non-trivial when some access goes through something else than a plain name in main:
+    a pointer, a parameter of any mode, self, a whole-aggregate copy, a declaration or a return"""
+    return any(("*(" in s) or ("par<" in s) or re.search(r"\|(cp[ds]|decl|retd?|recv|arg[a-z]+)\|", s) for s in case_sigs(case))
+
+
+def strip(case):
+    return {"place": case["place"], "ops": case["ops"]}
+
+
+def run(rep):
+    seed, tier = rep.seed, rep.tier
+    cq = common.coq_check_props(PROP)
+    common.proof_coverage(rep, cq)
+    if not cq["ok"]:
+        rep.violation("proof", {"theorem": cq["failed_theorem"], "log": cq["log"][-3000:]},
+                      "proof obligation %s no longer checks" % cq["failed_theorem"], True)
+    common.ensure_model(PROP)
+    impl = common.build_impl("plain")
+
+    cases = []
+    corpus = os.path.join(common.VERIF, "corpus", "c07.json")
+    if os.path.exists(corpus):
+        for c in json.load(open(corpus)):
+            c = load_case(c)
+            c["origin"] = "corpus"
+            cases.append(c)
+    n_rand = 1500 if tier == "quick" else 30000
+    maxlen = 60 if tier == "quick" else 90
+    avoided = {}
+    n_avoid_total = 0
+
+    def mk(k):
+        ln = 8 + (k * 7) % (maxlen - 7)
+        c, g = gen_history(seed, k, ln, tier)
+        return c, g.avoided
+    for c, av in common.pmap(mk, range(n_rand)):
+        cases.append(c)
+        n_avoid_total += av
+    n_conf = 60 if tier == "quick" else 1500
+    for k in range(n_conf):
+        cases.append(gen_conflict(seed, k))
+
+    # model (extracted from Coq) on every case; Python shadow as a cross-check of the encoding
+    mres = model_run([strip(c) for c in cases])
+    enc_bad = 0
+    for c, (sp, me) in zip(cases, mres):
+        if sp != norm_shadow(shadow_run(c, False)) or me != norm_shadow(shadow_run(c, True)):
+            enc_bad += 1
+            if enc_bad <= 2:
+                rep.violation("model-vs-shadow", {"case": strip(c), "model": [sp, me]},
+                              "extracted model and Python shadow heap disagree (harness defect, correspondence not established)", True)
+        if c["origin"] in ("random", "corpus") and (sp != me or (me and me[-1] == ["ERR"])):
+            rep.violation("generator", {"case": strip(c), "spec": sp, "mech": me},
+                          "generator left the fragment (Spec != Mech or not executable) - harness defect", True)
+    itr = common.pmap(lambda c: impl_transcript(impl, c), cases)
+
+    bad = [(c, m, i) for c, (s_, m), i in zip(cases, mres, itr) if i != m]
+    distinct = {}
+    hist_roles, hist_origin = {}, {}
+    for c in cases:
+        key = common.hashlib.sha256(json.dumps(strip(c)["ops"], sort_keys=True, default=list).encode()).hexdigest()
+        hist_origin[c["origin"]] = hist_origin.get(c["origin"], 0) + 1
+        if key in distinct:
+            continue
+        distinct[key] = nontrivial(c)
+        for s in case_sigs(c):
+            ctx, role, ex, fl = s.split("|")
+            fam = role + ("*" if "*(" in ex else "") + (":" + re.findall(r"par<(\w+)", ex)[0] if "par<" in ex else "")
+            hist_roles[fam] = hist_roles.get(fam, 0) + 1
+    nops = sum(len(c["ops"]) for c in cases)
+    sample = cases[len(cases) // 3]
+    rep.coverage.update({
+        "evaluations": len(cases),
+        "distinct_nontrivial": sum(1 for v in distinct.values() if v),
+        "rule": "each case = one generated history printed as a Cb program and run on main (current tree) and on the extracted Coq "
+                "model; distinct = distinct op lists; non-trivial = some access goes through a pointer, a parameter (by value, T&, T*, "
+                "array, self), a whole-aggregate copy, a declaration-copy or a by-value return",
+        "operations_total": nops,
+        "transcript_lines_compared": sum(len(m) for _, (s_, m) in zip(cases, mres)),
+        "input_distribution": {"origin": hist_origin, "forms_by_role": dict(sorted(hist_roles.items())),
+                               "max_history_length": maxlen, "placement": "objects global or local to main, 50/50"},
+        "avoided_candidate_forms": n_avoid_total,
+        "fragment": fragment_size(),
+        "samples": [{"source": to_cb(sample), "model_transcript": mres[cases.index(sample)][1][:12]},
+                    {"ops": [o["k"] for o in cases[-1]["ops"]], "source": to_cb(cases[-1]),
+                     "model_spec": mres[-1][0], "model_mech": mres[-1][1], "impl": itr[-1]}],
+        "disagreements": len(bad),
+    })
+
+    bad.sort(key=lambda b: len(b[0]["ops"]))
+    for c, m, i in bad[:4]:
+        report_disagreement(rep, impl, c)
+
+    # known findings: replay each stored case
+    for f in common.known_findings(PROP):
+        case = load_case(f["replay"]["case"])
+        exp = f["replay"]["expected"]
+        (sp, me), = model_run([case])
+        got = impl_transcript(impl, case)
+        if sp != exp:
+            rep.violation("known-" + f["id"], {"case": case, "expected": exp, "model_spec": sp},
+                          "stored expectation of known finding %s is not what the proved model computes" % f["id"], True)
+        if got != sp:
+            rep.known(f["id"], f["what_fails"])
+        else:
+            rep.notes.append("known finding %s no longer reproduces (fixed?)" % f["id"])
+        if f.get("mech_modelled") and got != me:
+            rep.violation("known-mech-" + f["id"], {"case": case, "source": to_cb(case), "model_mech": me, "impl": got},
+                          "implementation no longer follows the modelled copy-in/write-through/copy-back convention on %s "
+                          "(and does not alias either)" % f["id"], no_failing_input=(got == sp))
+        if not f.get("mech_modelled") and f["kind"] != "restriction" and \
+                not any(avoid_id(s) == f["signature"]["avoid_rule"] for s in case_sigs(case)):
+            rep.notes.append("finding %s is not covered by its avoidance rule" % f["id"])
+    rep.assumptions += [
+        "the double representation of struct values (member map + flattened variables) is not modelled; the main stream avoids "
+        "the forms on which it misbehaves (18 rules, props/c07.py AVOID), each documented by a replayed known finding",
+        "the C++ behaves like the model on the fragment: differential testing on generated histories, not proof",
+        "Python printer (history -> Cb text) and transcript parser are trusted; the Python shadow heap is cross-checked against the "
+        "extracted Coq model on every case",
+    ]
+
+
+def fragment_size():
+    """size of the agreeing fragment vs the universe of access-form signatures (measured by enumeration on a
+    fixed probe state, not on this run's random stream)"""
+    rng = random.Random(12345)
+    seen = set()
+    for place in ("global", "local"):
+        for rep_ in range(60):
+            g = Gen(rng, lambda s: (seen.add(s), True)[1], place)
+            g.spec_eq_mech = lambda c: True
+            g.history(25)
+    allowed = sum(1 for s in seen if avoid_id(s) is None)
+    by_rule = {}
+    for s in seen:
+        a = avoid_id(s)
+        if a:
+            by_rule[a] = by_rule.get(a, 0) + 1
+    return {"form_signatures_enumerated": len(seen), "allowed": allowed, "excluded": len(seen) - allowed,
+            "excluded_by_rule": dict(sorted(by_rule.items()))}
+
+
+def load_case(c):
+    """normalise a case read back from JSON (access expressions as tuples)"""
+    def fix_sop(s):
+        s = dict(s)
+        for key in ("a", "d", "s", "p", "t"):
+            if key in s and isinstance(s[key], list):
+                s[key] = tup(s[key])
+        if "as" in s:
+            s["as"] = [tup(a) for a in s["as"]]
+        return s
+    out = {"place": c.get("place", "local"), "ops": []}
+    for o in c["ops"]:
+        o = fix_sop(o)
+        if o["k"] == "call":
+            o["params"] = [dict(p, arg=tup(p["arg"])) for p in o["params"]]
+            o["body"] = [fix_sop(s) for s in o["body"]]
+            if o.get("ret"):
+                r = dict(o["ret"])
+                r["e"] = tup(r["e"])
+                r["d"] = tup(r["d"]) if r.get("d") is not None else None
+                o["ret"] = r
+        out["ops"].append(o)
+    return out
+
+
+def report_disagreement(rep, impl, case):
+    (sp0, me0), = model_run([strip(case)])
+    i0 = impl_transcript(impl, case)
+
+    def kind(c):
+        (sp, me), = model_run([strip(c)])
+        i = impl_transcript(impl, c)
+        if i == me:
+            return None
+        ex = [l for l in i if l and l[0] == "EXIT"]
+        return ("exit", ex[0][1]) if ex else ("diff",)
+    k0 = kind(case)
+    small = shrink_case(strip(case), lambda c: kind(c) == k0, budget=250) if k0 else strip(case)
+    (sp, me), = model_run([small])
+    i = impl_transcript(impl, small)
+    concrete = (i != sp)
+    known = sorted(set(avoid_id(s) for s in case_sigs(small)) - {None})
+    text = ("main and the proved model disagree on a %d-statement history (%s); %s" % (
+        len([o for o in small["ops"] if o["k"] != "nop"]), case.get("origin"),
+        "the transcript also differs from the aliasing semantics the property demands" if concrete else
+        "main agrees with the aliasing semantics but not with the modelled copy-back convention"))
+    rep.violation("corr", {"case": small, "source": to_cb(small), "model_mech": me, "model_spec": sp, "impl": i,
+                           "forms": case_sigs(small), "avoid_rules_matching": known,
+                           "broken": "correspondence model = main (carrier of every C07 theorem)"},
+                  text, no_failing_input=not concrete)
+
+
+def replay(path):
+    data = json.load(open(path))
+    c = data["case"]
+    case = load_case(c["case"] if "case" in c else c)
+    common.ensure_model(PROP)
+    impl = common.build_impl("plain")
+    (sp, me), = model_run([case])
+    i = impl_transcript(impl, case)
+    print(to_cb(case))
+    print("model (aliasing):  ", sp)
+    print("model (copy-back): ", me)
+    print("implementation:    ", i)
+    return 0 if i == me else 1
